@@ -18,7 +18,7 @@ def explore(core, rng, tier, seed, search=False):
     ns = 25 if tier == "quick" else 600
     return traceprop.explore(core, ID, [["av", rng.randrange(1 << 30), n], ["pool", rng.randrange(1 << 30), n],
                                         ["avstress", rng.randrange(1 << 30), ns], ["poolstress", rng.randrange(1 << 30), ns],
-                                        ["avfirst", rng.randrange(1 << 30), 3000 if tier == "quick" else 100000], ["poolpc", rng.randrange(1 << 30), 12 if tier == "quick" else 300]], min_events=4,
+                                        ["avfirst", rng.randrange(1 << 30), 3000 if tier == "quick" else 100000], ["avtypes", rng.randrange(1 << 30), 400 if tier == "quick" else 20000], ["poolpc", rng.randrange(1 << 30), 12 if tier == "quick" else 300]], min_events=4,
                              race_cmds=[["pool", rng.randrange(1 << 30), rn], ["av", rng.randrange(1 << 30), rn]])
 
 
